@@ -18,6 +18,10 @@ def skewFuture : Int := skewFutureSec
 def skewPast : Int := skewPastSec
 def blacklistSec : Int := blacklistDurationSec
 def cacheCap : Nat := defaultMaxSize
+def supportedAlgs : List String := Generated.supportedAlgs
+/-- algorithms `verifySignature` knows a hash for (an entry whose hash does not match its suffix is dropped) -/
+def hashAlgs : List String := Generated.hashAlgs.filter (fun a => !(a.endsWith "!mismatch"))
+def nbfTypeChecked : Bool := Generated.nbfTypeChecked
 
 /-- limiter as constructed in `New`: refill rate (tokens per second) and burst (tokens) for a configured `rateLimit = R`.
     Unrecognised constructor arguments fall back to the pre-fix shape (1 token/s) so that the correspondence shows it. -/
